@@ -277,6 +277,41 @@ func c16(c *Ctx) {
 		r.Check(nw >= 2, "C16.V3", fi.Name(), "config writes found", c.P.Pos(fi.Node().Pos()), "found", "expected the install and the revision write")
 	}
 
+	// V3b: config.FromString builds the configuration from nothing but its input
+	if fi := c.MustFunc("config.FromString"); fi != nil {
+		info := fi.Info()
+		for _, call := range astx.Calls(fi.Body(), false) {
+			fn := astx.Callee(info, call)
+			if fn == nil || fn.Pkg() == nil || fn.Pkg().Path() != "github.com/BurntSushi/toml" || len(call.Args) != 2 {
+				continue
+			}
+			u, ok := ast.Unparen(call.Args[1]).(*ast.UnaryExpr)
+			if !ok {
+				continue
+			}
+			id, ok := ast.Unparen(u.X).(*ast.Ident)
+			if !ok {
+				continue
+			}
+			fresh := true
+			for _, d := range defsOf(info, fi.Node(), astx.Obj(info, id)) {
+				if d == nil {
+					continue // var cfg Network
+				}
+				ast.Inspect(d, func(n ast.Node) bool {
+					if x, ok := n.(*ast.Ident); ok {
+						if v, ok := info.Uses[x].(*types.Var); ok && v.Parent() == v.Pkg().Scope() {
+							fresh = false
+						}
+					}
+					return true
+				})
+			}
+			r.Check(fresh, "C16.V3", fi.Name(), "decodes into a fresh configuration value", c.P.Pos(call.Pos()), "target has no package-level initialiser",
+				"the configuration is decoded on top of a package-level value: its maps (ban list, trusted bridges) are shared between updates and processes, so entries removed by an accepted update stay in force on long-running replicas but not on restored ones")
+		}
+	}
+
 	// V4 who writes the config
 	allowed := map[string]string{
 		"ircserver.NewIRCServer":               "constructor (default configuration)",
